@@ -550,6 +550,14 @@ def _spec_call(self, sp, name, args, ctx):
         return VInt(args[0].z)
     if name == 'digest_size':
         return VInt(digest_size_term(args[0].z))
+    if name == 'hasher':
+        # hasher(n): the digest constructor with index n (1 sha1, 2 sha256, 3 sha512)
+        return VObj('hasher', args[0].z)
+    if name == 'packed':
+        # packed(addr): the network-order octets of an IP address (4 or 16)
+        ver, val = rec_get(args[0], 'version').z, rec_get(args[0], 'value').z
+        r4, r16 = ops.be_bytes(val, 4), ops.be_bytes(val, 16)
+        return VBytes(z3.If(ver == 4, r4, r16))
     if name == 'hmac':
         r = fn_hmac(args[0].z, args[1].z, args[2].z)
         ctx.facts.append(z3.Length(r) == digest_size_term(args[0].z))
